@@ -27,6 +27,7 @@ RULE += (
          'Also: insertion contexts with tainted / plain neighbours in '
          'the same body and inside a sub-template whose encoding '
          "differs from the page's. ")
+RULE += ('Round 8: named special formats that are the identity on the value next to html_quote. ')
 ASSUMPTIONS = [
     'html.escape(str, quote=True) defines the expected text',
     'identity options are applied only when they are the identity on the value '
